@@ -235,6 +235,11 @@ AlphaErrors5 ==
    CMD("nosuch"), T0("rx"), MK0, MK1, CMD("f"), DEFN("f"), T0("seq"), T0("and"), T0("not"), T0("sub"),
    T0("if")}
 
+\* C10: redirection errors on function calls and function bodies (needs a
+\* definition, a call and an observer: size 6)
+AlphaErrFn ==
+  {MK0, MK1, CMD("f"), RXE(CMD("f")), DEFN("f"), T0("rx"), T0("seq"), T0("or"), T0("sub")}
+
 \* C10: syntax error on a later line
 AlphaSyn ==
   {MK0, MK1, PR, EXIT(4), T0("asg"), CMD("nosuch"), T0("seq"), T0("and"), T0("sub"), T0("if"),
